@@ -25,10 +25,16 @@ pub mod c19;
 pub mod c20;
 pub mod fac;
 pub mod san;
+#[cfg(feature = "cluster")]
+pub mod tcp;
 
 pub fn dispatch(args: &Args, rep: &mut Report) {
     if args.engine == "san" {
         return san::run(args, rep);
+    }
+    #[cfg(feature = "cluster")]
+    if args.engine == "tcp" {
+        return tcp::run(args, rep);
     }
     match args.prop.as_str() {
         "C01" => c01::run(args, rep),
